@@ -160,4 +160,14 @@ CLAIMED['C15'] = {
     'technique': 'contract-based deductive verification over a ghost file system (obligation at every effect boundary of the real functions) + bounded fault-injection oracle on real directories',
 }
 
+CLAIMED['C19'] = {
+    'category': 'other',
+    'text': 'Deductively discharged: the structure of the rule text suggest_merchants_rule emits (header, match line built from suggest_match_expr, category/subcategory/tags lines) '
+            'and the escaping of one word into a string literal, for all names/patterns/tags. The sentence that the suggested rule matches its description depends on regular-expression '
+            'and string-literal-tokenizer semantics that no contract within reach expresses; it is decided only by the labelled bounded stand-in (token-set enumeration on the real '
+            'discover/loader/matcher and the discover-append-discover loop), hence level other, not proof.',
+    'level_note': _BASE_NOTE + ' Regular expressions and the Python tokenizer are not modelled (A6): bounded-only for the matching direction.',
+    'technique': 'contract-based deductive verification for the emitted-text structure (symbolic execution, z3); bounded stand-in (labelled) for the matching direction',
+}
+
 NOT_APPLICABLE = {}
